@@ -110,32 +110,48 @@ def execute (fv : Nat) (autoPage : Bool) : List Bytes → Option (QIter × List 
 /-- `iter.pos >= iter.numRows && iter.next != nil` on an iterator without error (Iter.WillSwitchPage) -/
 def needFetch (q : QIter) : Bool := !q.it.failed && decide (q.it.pos ≥ q.it.numRows) && q.more
 
+/-- Iter.WillSwitchPage(): `iter.pos >= iter.numRows && iter.next != nil` -/
+def willSwitchPage (q : QIter) : Bool := decide (q.it.pos ≥ q.it.numRows) && q.more
+
 inductive PScanOut
-  | row (q : QIter) (future : List Bytes) (calls : List Call) (switched : Bool)    -- Scan returned true
-  | stop (q : QIter) (future : List Bytes) (calls : List Call) (switched : Bool)   -- Scan returned false
+  | row (q : QIter) (future : List Bytes) (calls : List Call)    -- Scan returned true
+  | stop (q : QIter) (future : List Bytes) (calls : List Call)   -- Scan returned false
   | crash
 deriving Repr
 
 /-- Iter.Scan on the current page -/
-def scanHere (q : QIter) (future : List Bytes) (dests : List Bool) (sw : Bool) : PScanOut :=
+def scanHere (q : QIter) (future : List Bytes) (dests : List Bool) : PScanOut :=
   match scan q.it dests with
-  | .row it' calls => .row { q with it := it' } future calls sw
+  | .row it' calls => .row { q with it := it' } future calls
   | .stop it' calls =>
-    .stop { q with it := it', err := if it'.failed && q.err.isNone then some .scan else q.err } future calls sw
+    .stop { q with it := it', err := if it'.failed && q.err.isNone then some .scan else q.err } future calls
   | .crash => .crash
 
 /-- Iter.Scan (session.go:1587-1631) with `iter.next`: at the end of a page that has a successor the
-    iterator BECOMES the successor's (`*iter = *iter.next.fetch()`) and Scan starts over.
-    `switched`: some page was fetched during this call. -/
-def pscan (fv : Nat) (autoPage : Bool) (dests : List Bool) : List Bytes → QIter → Bool → PScanOut
-  | [], q, sw => if needFetch q then .stop exhaustedQ [] [] true else scanHere q [] dests sw
-  | w :: ws, q, sw =>
+    iterator BECOMES the successor's (`*iter = *iter.next.fetch()`) and Scan starts over. -/
+def pscan (fv : Nat) (autoPage : Bool) (dests : List Bool) : List Bytes → QIter → PScanOut
+  | [], q => if needFetch q then .stop exhaustedQ [] [] else scanHere q [] dests
+  | w :: ws, q =>
     if needFetch q then
       match step1 fv autoPage w with
-      | .iter q' => pscan fv autoPage dests ws q' true
-      | .again => pscan fv autoPage dests ws q sw
+      | .iter q' => pscan fv autoPage dests ws q'
+      | .again => pscan fv autoPage dests ws q
       | .crash => .crash
-    else scanHere q (w :: ws) dests sw
+    else scanHere q (w :: ws) dests
+
+/-- `for iter.Scan(dests...) { }`: the calls of every successful Scan up to the first `false` (which must
+    deliver nothing), the iterator and the unused answers then; `none`: out of fuel, a panic, or a `false`
+    after some destinations were written -/
+def pdrain (fv : Nat) (dests : List Bool) : Nat → List Bytes → QIter → Option (List (List Call) × QIter × List Bytes)
+  | 0, _, _ => none
+  | n + 1, fut, q =>
+    match pscan fv true dests fut q with
+    | .row q' fut' calls =>
+      (match pdrain fv dests n fut' q' with
+       | some (cs, q'', f) => some (calls :: cs, q'', f)
+       | none => none)
+    | .stop q' fut' [] => some ([], q', fut')
+    | _ => none
 
 /-! ## the Scanner over pages -/
 
